@@ -421,6 +421,7 @@ func init() {
 
 	registerRecover()
 	registerPanic()
+	registerLazySources()
 }
 
 // ---- Recover* / OrElse* / Or* -----------------------------------------------------------
@@ -826,6 +827,31 @@ var behNames = []string{"return-value", "return-error", "panic(string)", "panic(
 	"panic(typed nil pointer of a type with Panic() and Stack())",
 	"panic([8192]int64)", "panic(1 MiB string)", "panic(2 MiB slice)", "panic(func)", "panic(map)", "panic(chan)"}
 
+// behaviours used by the panic SEQUENCES only (seqpanic.go); they are not part of the enumerated
+// list (nBeh), so the case numbering of the enumerated sites stays what it was
+const (
+	behPanicStructWithSlice   = nBeh + iota // struct with a slice field: an uncomparable struct type
+	behPanicIfaceHoldingSlice               // struct{X any} holding a slice: comparable type, == panics at run time
+	behPanicArrayOfSlices                   // [2][]int
+	nBehAll
+)
+
+var extraBehNames = []string{"panic(struct with a slice field)", "panic(struct{X any} holding a slice)", "panic([2][]int)"}
+
+func behName(b int) string {
+	if b >= nBeh {
+		return extraBehNames[b-nBeh]
+	}
+	return behNames[b]
+}
+
+type sliceStruct struct {
+	Tag string
+	Xs  []int
+}
+
+type ifaceStruct struct{ X any }
+
 type payload struct {
 	A int
 	B string
@@ -1014,6 +1040,12 @@ func (t *T) behave() (int, error) {
 		t.raised = map[string]int{"k": t.vals[1]}
 	case behPanicChan:
 		t.raised = make(chan int, 1)
+	case behPanicStructWithSlice:
+		t.raised = sliceStruct{"s", []int{t.vals[1], 7}}
+	case behPanicIfaceHoldingSlice:
+		t.raised = ifaceStruct{[]int{t.vals[1], 8}}
+	case behPanicArrayOfSlices:
+		t.raised = [2][]int{{t.vals[1]}, {9}}
 	}
 	panic(t.raised)
 }
@@ -1055,11 +1087,15 @@ func samePanic(got, want any) bool {
 		return false
 	}
 	if tw.Comparable() {
-		eq := false
+		eq, panicked := false, true
 		func() {
 			defer func() { recover() }()
 			eq = got == want
+			panicked = false
 		}()
+		if panicked { // comparable static type holding an uncomparable dynamic value
+			return reflect.DeepEqual(got, want)
+		}
 		return eq
 	}
 	vg, vw := reflect.ValueOf(got), reflect.ValueOf(want)
@@ -1127,7 +1163,7 @@ func regPanicSite(key, family string, n int, flags int, exec func(t *T)) {
 	// again) with behaviour int(t.mask); a panic that reaches the caller is noted in t.escaped.
 	runOnce := func(t *T, mech func()) {
 		t.beh = int(t.mask)
-		t.custNote = behNames[t.beh]
+		t.custNote = behName(t.beh)
 		if t.exec == nil {
 			t.exec = &inlineExec{}
 		}
@@ -1144,7 +1180,7 @@ func regPanicSite(key, family string, n int, flags int, exec func(t *T)) {
 			mech()
 			return nil
 		}()
-		t.w.Add("panic.kind."+behNames[t.beh], 1)
+		t.w.Add("panic.kind."+behName(t.beh), 1)
 		if flags&flagFut != 0 {
 			if t.exec.n > 0 {
 				t.w.Add("future.executor_argument_used."+family, 1)
@@ -1155,7 +1191,7 @@ func regPanicSite(key, family string, n int, flags int, exec func(t *T)) {
 	}
 	check := func(t *T) {
 		if t.escaped != nil {
-			t.violate("panic-escaped", fmt.Sprintf("the user function did %s; the panic was not captured and reached the caller: %s", behNames[t.beh], describe(t.escaped)))
+			t.violate("panic-escaped", fmt.Sprintf("the user function did %s; the panic was not captured and reached the caller: %s", behName(t.beh), describe(t.escaped)))
 			return
 		}
 		var args []int
@@ -1191,25 +1227,25 @@ func regPanicSite(key, family string, n int, flags int, exec func(t *T)) {
 			}
 		default:
 			if o.ok {
-				t.violate("panic-lost", fmt.Sprintf("the user function did %s; the result is %s", behNames[t.beh], t.outString()))
+				t.violate("panic-lost", fmt.Sprintf("the user function did %s; the result is %s", behName(t.beh), t.outString()))
 				return
 			}
 			// the failure itself must expose the panic value: the error's OWN Panic() method (errors.As is
 			// not consulted: a panic value that answers As/Unwrap must not be mistaken for the capture)
 			p, isP := o.err.(panicker)
 			if !isP {
-				t.violate("panic-not-exposed", fmt.Sprintf("the user function did %s; the failure %s does not expose Panic()", behNames[t.beh], errName(o.err)))
+				t.violate("panic-not-exposed", fmt.Sprintf("the user function did %s; the failure %s does not expose Panic()", behName(t.beh), errName(o.err)))
 				return
 			}
 			if sameIface(o.err, t.raised) {
 				// the failure IS the panic value (no capture wrapper around it): its Panic() is the value's own
 				// method and reports the value's inner cause, not what the function panicked with
-				t.violate("panic-value-lost", fmt.Sprintf("the user function did %s with value %s; the failure is that value itself, so Panic() returns its inner %s, not the value the function panicked with", behNames[t.beh], describe(t.raised), describe(p.Panic())))
+				t.violate("panic-value-lost", fmt.Sprintf("the user function did %s with value %s; the failure is that value itself, so Panic() returns its inner %s, not the value the function panicked with", behName(t.beh), describe(t.raised), describe(p.Panic())))
 				return
 			}
 			got := p.Panic()
 			if !samePanic(got, t.raised) {
-				t.violate("panic-value-lost", fmt.Sprintf("the user function did %s with value %s; Panic() returns %s", behNames[t.beh], describe(t.raised), describe(got)))
+				t.violate("panic-value-lost", fmt.Sprintf("the user function did %s with value %s; Panic() returns %s", behName(t.beh), describe(t.raised), describe(got)))
 				return
 			}
 			switch t.beh {
@@ -1247,6 +1283,7 @@ func regPanicSite(key, family string, n int, flags int, exec func(t *T)) {
 		}
 	}
 	reg(s)
+	regPanicSequences(key, family, n, behs, runOnce, check, exec)
 }
 
 // sameIface: both interfaces hold the very same dynamic value (same type; same pointer / equal comparable value).
